@@ -1,7 +1,7 @@
 SPECIFICATION SimSpec
 CONSTANTS
   Comp = "sync"
-  Ops = {"get", "load", "with", "string", "using", "set", "store", "swap", "cas", "safeset", "reset"}
+  Ops = {"get", "load", "with", "string", "using", "set", "store", "swap", "cas", "safeset", "reset", "accget", "accset"}
   V = {1, 2}
   K = {"a", "b", "c"}
   Depth = 20
